@@ -266,6 +266,25 @@ func runC09(t *testing.T, seed uint64, m *Mask) *Report {
 		srv.PluginContainer().AppendRight(mkAll(rightLate)...)
 		left := append(append([]c09Plugin{}, leftLate...), leftEarly...)
 		right := append(append([]c09Plugin{}, rightEarly...), rightLate...)
+		// a global plugin taken out again once routes and handlers exist: from then on it fires at no stage, on
+		// the peer's own container and on every container derived from it
+		if n := len(left) + len(right); n > 0 && e.Gen.Intn(4) == 0 {
+			k := e.Gen.Intn(n)
+			var gone c09Plugin
+			if k < len(left) {
+				gone = left[k]
+				left = append(left[:k:k], left[k+1:]...)
+			} else {
+				k -= len(left)
+				gone = right[k]
+				right = append(right[:k:k], right[k+1:]...)
+			}
+			if err := srv.PluginContainer().Remove(gone.name); err != nil {
+				e.Fail("infra-remove-failed", "remove %s: %v", gone.name, err)
+				return
+			}
+			topo = append(topo, "removed["+gone.name+"]")
+		}
 		names := func(ps []c09Plugin) string {
 			var s []string
 			for _, p := range ps {
